@@ -2,7 +2,6 @@ import Pixman.Lemmas.FormatCodec
 import Pixman.Lemmas.FormatMem
 import Pixman.Lemmas.FormatWide
 import Pixman.Lemmas.FormatYuv
-import Pixman.Lemmas.FormatBinary32d
 /-! C10 — pixel formats: exact codec, bit-replicated widening, accessor equivalence.
 
 Statements are about the model `Pixman.Model.Format` (tied to pixman-access.c / pixman-utils.c by the
@@ -465,108 +464,13 @@ theorem accessor_build_iff_any_callback (readFunc writeFunc : Bool) :
 
 example : Pixman.Gen.Formats.accessorBuildSelected true false = true ∧ Pixman.Gen.Formats.accessorBuildSelected false true = true := by decide
 
-/-! ## wide (float) paths in exact IEEE-754 binary32 — NOT partial
-
-`Pixman.Model.Binary32`: a `float` is its bit pattern, every operation rounds to nearest even; `unorm_to_float` is
-`(float) u * (1.f / (float) m)` with both roundings, `float_to_unorm` is clamp, exact scaling, truncation, `u -= u >> n`.
-The correspondence check requires the library's floats to be bit-identical to this model (every format and width,
-all 131070 (width, value) pairs of the two scalar functions for widths 1..16). -/
-
-section binary32
-open Pixman.Model.Binary32 Pixman.Lemmas.Binary32
-
-/-- `float_to_unorm (unorm_to_float (u, n), n) = u` in binary32 for every width up to 11 bits (all widths that occur in
-pixel formats: 1..8, 10) -/
-theorem float_roundtrip (n u : Nat) (h1 : 1 ≤ n) (h2 : n ≤ 11) (hu : u < 2 ^ n) :
-    floatToUnorm32 (unormToFloat32 u n) n = u := (facts n u h1 h2 hu).1
-
-/-- ... and NOT beyond: from 12 bits on some level does not survive (the library computes the same values); 16-bit
-levels only ever go *to* float in pixman (solid colours), never back to 16 bits -/
-theorem float_roundtrip_fails_from_12_bits :
-    floatToUnorm32 (unormToFloat32 4094 12) 12 = 4095 ∧ floatToUnorm32 (unormToFloat32 8190 13) 13 = 8191 ∧
-    floatToUnorm32 (unormToFloat32 16376 14) 14 = 16377 ∧ floatToUnorm32 (unormToFloat32 32736 15) 15 = 32737 ∧
-    floatToUnorm32 (unormToFloat32 65408 16) 16 = 65409 := roundtrip_fails
-
-/-- end points, every width 1..16: 0 ↦ +0.0f, maximum ↦ exactly 1.0f (`m * (1.f / m) == 1.0f`), 0.0f ↦ 0, 1.0f ↦ maximum -/
-theorem float_ends (n : Nat) (h1 : 1 ≤ n) (h2 : n ≤ 16) :
-    unormToFloat32 0 n = 0 ∧ unormToFloat32 (2 ^ n - 1) n = 0x3f800000 ∧ floatToUnorm32 0 n = 0 ∧
-    floatToUnorm32 0x3f800000 n = 2 ^ n - 1 :=
-  ends_table n (List.mem_range.mpr (by omega)) h1
-
-/-- strictly increasing bit patterns of positive finite floats (for those, pattern order is value order) -/
-theorem float_strict_mono (n : Nat) (h1 : 1 ≤ n) (h2 : n ≤ 11) (a b : Nat) (hab : a < b) (hb : b < 2 ^ n) :
-    unormToFloat32 a n < unormToFloat32 b n ∧ unormToFloat32 b n < 0x7f800000 := by
-  refine ⟨?_, (facts n b h1 h2 hb).2.2.2.2.1⟩
-  induction b with
-  | zero => omega
-  | succ k ih =>
-    have step := (facts n k h1 h2 (by omega)).2.2.2.1 hb
-    by_cases hk : a = k
-    · rw [hk]; exact step
-    · exact Nat.lt_trans (ih (by omega) (by omega)) step
-
-/-- the rounded value is within one unit in the last place (relative `2^-23`) of the rational `u / (2^n - 1)`,
-written on the integer significand: `x = mant · 2^(ebias - 150)` -/
-theorem float_close_to_rational_nat (n u : Nat) (h1 : 1 ≤ n) (h2 : n ≤ 11) (hu : u < 2 ^ n) :
-    let x := unormToFloat32 u n
-    let a := mant x * (2 ^ n - 1) * 2 ^ ebias x
-    let b := u * 2 ^ 150
-    (if a ≥ b then a - b else b - a) * 2 ^ 23 ≤ b := (facts n u h1 h2 hu).2.2.2.2.2
-
-/-- the same on rational values, and strict growth of the values, for the widths of the pixel formats: this bridges
-the exact-rational theorems (`*_partial`) to binary32 -/
-theorem float_close_to_rational (n u : Nat) (hn : (1 ≤ n ∧ n ≤ 8) ∨ n = 10) (hu : u < 2 ^ n) :
-    let x := toRat (unormToFloat32 u n)
-    let q := (u : Rat) / (((2 ^ n - 1 : Nat)) : Rat)
-    (x - q) * 8388608 ≤ q ∧ (q - x) * 8388608 ≤ q ∧ (u + 1 < 2 ^ n → x < toRat (unormToFloat32 (u + 1) n)) := by
-  have h := ratFacts n u hn hu
-  unfold ratChk at h
-  exact of_decide_eq_true h
-
-/-- clamping: anything above 1.0f stores the maximum, anything below 0 stores 0 (all widths 1..16, any finite float) -/
-theorem float_clamps (n : Nat) (h1 : 1 ≤ n) (h2 : n ≤ 16) (f : Nat) :
-    (gt32 f one = true → floatToUnorm32 f n = 2 ^ n - 1) ∧ (lt32 f zero = true → floatToUnorm32 f n = 0) := by
-  obtain ⟨_, _, e0, e1⟩ := float_ends n h1 h2
-  exact ⟨fun h => by rw [clamp_hi f n h]; exact e1, fun h => by rw [clamp_lo f n h]; exact e0⟩
-
-/-- the float pipeline and the 8-bit pipeline widen alike, in binary32: level → float → 8 bits is bit replication -/
-theorem float_path_is_replication (n c : Nat) (h1 : 1 ≤ n) (h2 : n ≤ 8) (hc : c < 2 ^ n) :
-    floatToUnorm32 (unormToFloat32 c n) 8 = unormToUnorm c n 8 := replication n c h1 h2 hc
-
-/-- packed 10-bit formats: store ∘ fetch = identity on the defined bits, in binary32 -/
-theorem wide10_store_fetch_id (p : Nat) (hp : p < 2 ^ 32) :
-    storeA2r10g10b10 (fetchA2r10g10b10 p) = p ∧ storeA2b10g10r10 (fetchA2b10g10r10 p) = p ∧
-    storeX2r10g10b10 (fetchX2r10g10b10 p) = p % 2 ^ 30 ∧ storeX2b10g10r10 (fetchX2b10g10r10 p) = p % 2 ^ 30 :=
-  ⟨a2r10g10b10_roundtrip32 p hp, a2b10g10r10_roundtrip32 p hp, x2r10g10b10_roundtrip32 p, x2b10g10r10_roundtrip32 p⟩
-
-example : storeA2r10g10b10 (fetchA2r10g10b10 0x9abcdef0) = 0x9abcdef0 := by decide +kernel
-
-/-- a8r8g8b8_sRGB: store ∘ fetch = identity in binary32 — `to_srgb` with its float comparisons and float subtractions
-inverts the regenerated `to_linear` table -/
-theorem srgb_store_fetch_id (p : Nat) (hp : p < 2 ^ 32) : storeSrgb32 (fetchSrgb32 p) = p := srgb_roundtrip32 p hp
-
-/-- widening a fetched YUV / indexed pixel to float = `unorm_to_float (byte, 8)` per channel, in binary32, and
-contracting it gives the 8-bit result back -/
-theorem yuv_float_widening_is_8bit_widening (r : Rec) (hr : r ∈ formats) (h : r.acc = 5 ∨ indexed r = true) (v : Nat) :
-    expandToFloat32 r.code v = ⟨unormToFloat32 (field v 24 8) 8, unormToFloat32 (field v 16 8) 8,
-      unormToFloat32 (field v 8 8) 8, unormToFloat32 (field v 0 8) 8⟩ :=
-  expand32_novis r.code v (gen_yuv_vis r hr h)
-
-theorem yuv_float_contracts_to_8bit (r : Rec) (hr : r ∈ formats) (h : r.acc = 5 ∨ indexed r = true) (v : Nat)
-    (hv : v < 2 ^ 32) : contractFromFloat32 (expandToFloat32 r.code v) = v :=
-  contract32_expand_novis r.code v (gen_yuv_vis r hr h) hv
-
-end binary32
-
 /-! ## not proved here
 
 * Accessor equivalence: pixman-access-accessors.c is the same source recompiled with `READ`/`WRITE` calling the
   user callbacks.  The model has one `READ`/`WRITE`; that the second compilation behaves like the first is
   established by the correspondence check only (direct and callback images against the same model, callback
   addresses inside the storage).
-* The `*_partial` theorems are about exact rationals; their binary32 counterparts are in the section above.  Still
-  outside: NaN / infinity inputs of `float_to_unorm` (undefined behaviour in C), `roundNE` itself is a definition
-  (tied to the hardware by bit-exact correspondence, not proved against an abstract IEEE specification).
+* IEEE-754 rounding (see the section above).
 * the 32-bit sRGB entry points, big-endian builds, negative strides. -/
 
 end Pixman.Props.C10
